@@ -3,14 +3,23 @@ CSEAnalysisPass + CSEPrintPass; binding metadata of base_ir.py / ir.py).
 
 Model: coq/theories/CSE/Model.v — IR nodes with object identities (a DAG is a tree whose equal ids label equal subtrees, so
 the tree itself is the fully inlined IR), the analysis pass (stack of frames, visited sets, lifted lets, binding sites keyed by
-node id, uid counter), the print pass (bindings stack keyed by depth, visited, let bodies in completion order) and a total
-big-step evaluator.  Theorems (Props_C35.v): for ALL consistent DAGs of the modelled IR and all environments
+node id, uid counter), the print pass (bindings stack keyed by depth, visited, let bodies in completion order), a total
+big-step evaluator `eval`, and the semantics WITH ERRORS `evalE` (result = value | Err: `//` and `%` by zero and array
+indexing out of bounds fail; strict Let, If evaluates only the branch taken, loops evaluate their body once per element).
+Theorems (Props_C35.v): for ALL consistent DAGs of the modelled IR and all environments
 eval (cse d) = eval d, every free variable of the output is a free variable of the input, the analysis never reuses a name,
-and the print pass is correct for ANY table of binding sites with distinct names.
+the print pass is correct for ANY table of binding sites with distinct names; and for the semantics with errors:
+evalE (cse d) = evalE d (the rendered IR fails iff the inlined IR fails) for every DAG whose loop-invariant loop-body
+subexpressions cannot fail (`loops_ok`), with a machine-checked COUNTEREXAMPLE without that side condition (a let lifted out of
+a loop that runs zero times: open finding error-introduced:let-hoisted-out-of-loop-body).
 Tie: X — programs are built through the real expression API (and directly as hail.ir nodes), the real object graph is
 exported, rendered by the REAL CSERenderer of $VERIF_REPO, the IR text is read back and compared structurally with the
 model's output for the same graph; binding metadata (new_block / bindings / free_vars) of every real node is compared
-with the model's; model output, real output and inlined IR are evaluated with the model's eval.
+with the model's; model output, real output and inlined IR are evaluated with the model's eval AND evalE.
+Oracle (implementation only): the real rendering is read back and evaluated against the inlined IR under the semantics with
+errors (Python reference evaluator), on random programs, programs with one shared subtree in many positions, and programs
+whose shared subexpression FAILS and sits in evaluated / unevaluated places (untaken If branches, loops over empty arrays,
+guards on loop variables).
 The model is the renderer as repaired by fixes/C35.diff (see findings/C35.json): on the unrepaired code the correspondence
 breaks and the oracle replays the failing programs.
 """
@@ -35,18 +44,28 @@ META = dict(
               'semantic congruence of the evaluator) about a hand model of the two-pass CSE renderer, tied to the real CSERenderer by a '
               'differential run on DAGs built through the real expression API',
     level_text='Machine-checked theorems (Coq 8.16, closed under the global context): for EVERY expression DAG over I32/True/False, '
-               'ApplyBinaryPrimOp(+,-,*), ApplyUnaryPrimOp(-,!), ApplyComparisonOp, If, Let, Ref, MakeStruct/GetField, MakeArray/ArrayLen/'
-               'CastToArray/ToArray/ToStream and StreamMap/StreamFilter/StreamFold lambdas — arbitrary sharing (including shared lambdas), '
-               'shadowing and free variables — and every environment, the IR with shared subexpressions lifted into let-bindings evaluates '
-               'to the same value as the fully inlined IR; every variable free in the output (so every variable used by a lifted binding at '
-               'the place it was put, and every reference to a lifted binding) is free in the input; binding names are never reused; and the '
-               'print pass is correct for any table of binding sites with distinct names. The model is the renderer as repaired by '
-               'fixes/C35.diff; it agrees node for node with the real renderer output on every generated program.',
-    level_note='Partial: aggregation/scan contexts (AggLet, the agg/scan halves of the binding context), effectful nodes, the unused memo table '
-               'and the remaining IR node classes are outside the model; evaluation is a total semantics (int32 wrap-around, no missing '
-               'values, no errors: lifting a failing expression out of a branch or loop body is not distinguished). The model is tied to '
-               'the Python code by the correspondence run, not by translation; the IR text reader and the exporter of the object graph are '
-               'trusted harness code.',
+               'ApplyBinaryPrimOp(+,-,*,//,%), ApplyUnaryPrimOp(-,!), ApplyComparisonOp, If, Let, Ref, MakeStruct/GetField, MakeArray/ArrayLen/'
+               'CastToArray/ToArray/ToStream, ArrayRef / Apply indexArray and StreamMap/StreamFilter/StreamFold lambdas — arbitrary sharing '
+               '(including shared lambdas), shadowing and free variables — and every environment, the IR with shared subexpressions lifted '
+               'into let-bindings evaluates to the same value as the fully inlined IR (total semantics); every variable free in the output '
+               '(so every variable used by a lifted binding at the place it was put, and every reference to a lifted binding) is free in the '
+               'input; binding names are never reused; the print pass is correct for any table of binding sites with distinct names. '
+               'Semantics WITH ERRORS (value | Err: // and % by zero and out-of-bounds indexing fail, strict Let, only the taken If branch, '
+               'loop bodies once per element): C35_error_semantics_preserved_partial — for EVERY such DAG in which no loop-invariant '
+               'subexpression of a loop body can fail, the rendered IR fails exactly when the inlined IR fails and otherwise has the same '
+               'value (every let sits at a node below which all its uses are in strict positions: no untaken If branch in between); '
+               'C35_error_semantics_refuted — without that side condition the statement is false for the renderer as it is (a let lifted '
+               'out of a loop that runs zero times), replayed on the real renderer as open finding '
+               'error-introduced:let-hoisted-out-of-loop-body. The model is the renderer as repaired by fixes/C35.diff; it agrees node '
+               'for node with the real renderer output on every generated program, and the real output is evaluated under both semantics.',
+    level_note='Partial: aggregation/scan contexts (AggLet, the agg/scan halves of the binding context), effectful nodes (Die), the unused '
+               'memo table and the remaining IR node classes are outside the model; values are int32 with wrap-around, booleans, arrays and '
+               'structs, no missing values; one kind of error (which operation failed first is not distinguished). The error-semantics '
+               'theorem carries the side conditions wf_arity (arities as the front end builds them) and loops_ok (see above); that a let '
+               'is never lifted out of an If branch IS proved (it is what the seeded new_block changes break), that it is not lifted out of '
+               'a loop body is NOT true of the code. The model is tied to the Python code by the correspondence run, not by translation; '
+               'the IR text reader, the exporter of the object graph and the Python reference evaluator of the oracle are trusted harness '
+               'code.',
     partial=True,
 )
 TRUSTED = ['hand model coq/theories/CSE/Model.v tied to renderer.py only by the correspondence run (X)',
@@ -54,7 +73,9 @@ TRUSTED = ['hand model coq/theories/CSE/Model.v tied to renderer.py only by the 
            'harness/impl/c35_lang.py (reader of the rendered IR text, generator, reference evaluator used by the oracle)',
            'loader: numpy from /verif/.deps, functional shims decorator/parsimonious; no JVM/backend is started',
            'names: `__cse_N` in the IR text is read as the model\'s C N, every other name as a program variable']
-ASSUMPTIONS = ['object graphs are consistent by construction (an id is the identity of one Python object with fixed children) and acyclic',
+ASSUMPTIONS = ['error semantics: integer // and % by zero and ArrayRef / indexArray out of bounds are the failing operations of the modelled '
+               'node set (Die is effectful and outside it); the engine evaluates Let strictly and only the taken branch of an If',
+               'object graphs are consistent by construction (an id is the identity of one Python object with fixed children) and acyclic',
                'program variable names never start with `__cse_` (the front end generates `__uid_N`; the exporter rejects other inputs)',
                'CSERenderer.memo is empty (nothing in hail/python writes to it: checked textually on every run)',
                'free variables of the root evaluate in the environment U n -> VInt (n+3)']
@@ -232,8 +253,8 @@ def correspond(ctx):
         if m['e_cse'] != m['e_in']:
             if m['side']:
                 raise HarnessError(f'model contradicts its own error-semantics theorem on {json.dumps(c)[:300]}')
-            if not (m['e_cse'] == L.ERR):     # C35_errors_never_hidden
-                raise HarnessError(f'model contradicts C35_errors_never_hidden on {json.dumps(c)[:300]}')
+            if not (m['e_cse'] == L.ERR):     # same value whenever neither fails (first theorem): the only difference can be an introduced Err
+                raise HarnessError(f'model: rendered and inlined IR differ other than by an introduced failure on {json.dumps(c)[:300]}')
             hist['model_refuted_class(let above loop fails)'] += 1
         if 'cse' not in r:
             dis.append(Disagreement('cse~CSERenderer', c, 'model renders the DAG', {'raises': r.get('cse_exc')}))
